@@ -100,6 +100,15 @@ func VerifH_C15_scalar_roundtrip() {
 	verifAssert(rb, "script sees a number")
 	f, _ := v.ToFloat()
 	i, _ := v.ToInteger()
+	if isInt && verifParam("tostring", 1) == 1 {
+		// ToString of an integer kind: the sign (an unsigned value never prints a
+		// minus), and Go side and script side agree on the text
+		str, _ := v.ToString()
+		neg := len(str) > 0 && str[0] == '-'
+		verifAssert(len(str) > 0 && neg == (!isUnsigned && asInt < 0), "ToString of an integer kind carries the right sign")
+		js, _ := vm.Run("String(v)")
+		verifAssert(js.String() == str, "ToString agrees with the script's String(v)")
+	}
 	switch {
 	case isUnsigned:
 		verifAssert(f == float64(u64), "ToFloat of an unsigned integer")
